@@ -1,7 +1,7 @@
 WEAVE = [dict(file='src/fiber_barrier.c', fns=['fiber_barrier_wait'])]
 PARK = ['fiber_manager_get', 'fiber_manager_wait_in_mpsc_queue', 'fiber_manager_wake_from_mpsc_queue']
 COUNTS_QUICK = [1, 2, 3, 4, 5, 6]
-COUNTS_THOROUGH = [7, 8, 10, 12, 16, 33]
+COUNTS_THOROUGH = [7, 8, 16, 32]
 GROUPS = [
     dict(name='wait', tu='barrier.c', harness='h_wait', mode='D', enforce='fiber_barrier_wait', replace=PARK, functions=['fiber_barrier_wait'], timeout=300),
 ] + [
